@@ -141,10 +141,17 @@ def classify_exc(e):
     return ('internal', type(e).__name__)
 
 
+CALL_LIMIT_S = 10
+
+
 def impl_expand(abbr, user_config):
     from emmet import expand
+    from common import time_limit, Hang
     try:
-        return ('ok', expand(abbr, copy.deepcopy(user_config)))
+        with time_limit(CALL_LIMIT_S):
+            return ('ok', expand(abbr, copy.deepcopy(user_config)))
+    except Hang:
+        return ('hang', CALL_LIMIT_S)
     except Exception as e:  # noqa
         return classify_exc(e)
 
@@ -166,9 +173,13 @@ def impl_events(abbr, user_config):
     uc['options'] = dict(uc['options'])
     uc['options']['output.field'] = field
     uc['options']['output.text'] = text
+    from common import time_limit, Hang
     try:
-        out = expand(abbr, uc)
+        with time_limit(CALL_LIMIT_S):
+            out = expand(abbr, uc)
         return ('ok', out, events)
+    except Hang:
+        return ('hang', CALL_LIMIT_S)
     except Exception as e:  # noqa
         return classify_exc(e)
 
